@@ -4,6 +4,7 @@ import asyncio
 import io
 import select
 import socket
+import struct
 import threading
 import time
 
@@ -109,11 +110,15 @@ class ScriptedPeer(threading.Thread):
                                 need -= len(b)
                                 if delay:
                                     time.sleep(delay)
+                        elif step[0] == "reset":
+                            # abortive close: RST instead of FIN
+                            conn.setsockopt(socket.SOL_SOCKET, socket.SO_LINGER, struct.pack("ii", 1, 0))
+                            break
                         elif step[0] == "close":
                             break
                     self.event("script-done-%d" % (len(self.received) - 1)).set()
                     # keep the connection open until the client closes or we are told to stop
-                    if not (script and script[-1][0] == "close"):
+                    if not (script and script[-1][0] in ("close", "reset")):
                         conn.settimeout(0.05)
                         t0 = time.time()
                         while not self.stop_flag and time.time() - t0 < WATCHDOG_S:
@@ -141,7 +146,7 @@ class ScriptedPeer(threading.Thread):
 
 # ============================================================================= socket server running the simulator
 class SimServer(threading.Thread):
-    def __init__(self, sim_factory, rcvbuf=None, recv_chunk=65536, recv_delay=0.0, send_frag=None, send_pause=0.0, max_conns=4):
+    def __init__(self, sim_factory, rcvbuf=None, recv_chunk=65536, recv_delay=0.0, send_frag=None, send_pause=0.0, max_conns=4, reset_after=None):
         threading.Thread.__init__(self, daemon=True)
         self.sim_factory = sim_factory
         self.lsock = socket.socket()
@@ -160,6 +165,8 @@ class SimServer(threading.Thread):
         self.error = None
         self.max_conns = max_conns
         self.frag_i = 0
+        self.reset_after = reset_after      # abort the FIRST connection (RST) once the device has seen this many host packets
+        self.resets = 0
 
     def run(self):
         try:
@@ -193,6 +200,10 @@ class SimServer(threading.Thread):
                             sim.feed(data)
                             if self.recv_delay:
                                 time.sleep(self.recv_delay)
+                        if self.reset_after is not None and len(self.sims) == 1 and len(sim.host_log) >= self.reset_after:
+                            conn.setsockopt(socket.SOL_SOCKET, socket.SO_LINGER, struct.pack("ii", 1, 0))
+                            self.resets += 1
+                            break
                         while True:
                             nxt = sim.next_packet()
                             if nxt is None:
@@ -264,7 +275,10 @@ def peer_cases(draw):
             "idle_timeout": draw(st.sampled_from([0.05, 0.1, 0.2, 0.3])), "tail": draw(st.binary(min_size=1, max_size=2000)),
             "rcvbuf": draw(st.sampled_from([None, None, 4096, 65536])), "reconnect": draw(st.booleans()),
             "big_write": draw(st.sampled_from([0, 0, 100000, 1048576])), "write_timeout": draw(st.sampled_from([None, 2.0, 5.0])),
-            "peer_rcvbuf": draw(st.sampled_from([None, 4096])), "sndbuf": draw(st.sampled_from([None, 4096]))}
+            "peer_rcvbuf": draw(st.sampled_from([None, 4096])), "sndbuf": draw(st.sampled_from([None, 4096])),
+            "poll": draw(st.booleans()),                 # read the tail with timeout 0 (a poll) once it has certainly arrived
+            "unread_inbound": draw(st.booleans()),       # the peer sends a few bytes that stay unread while the client writes
+            "peer_reset": draw(st.sampled_from([False, False, True]))}      # the peer finally aborts the connection (RST); close()/connect() must still work
 
 
 def _drive_sync(case, port, peer, rec):
@@ -300,14 +314,19 @@ def _drive_sync(case, port, peer, rec):
         rec["idle"] = ("other:" + type(e).__name__, 0, time.time() - t0)
     peer.event("tail").set()
     tail = bytearray()
+    if case.get("poll"):
+        time.sleep(0.15)          # the tail (<= 2000 bytes over loopback) has certainly arrived by now
     while len(tail) < len(case["tail"]):
         if time.time() > t_end:
             raise Inconclusive("watchdog while reading the tail")
-        b = tr.bulk_read(len(case["tail"]) - len(tail), case["read_timeout"])
+        b = tr.bulk_read(len(case["tail"]) - len(tail), 0 if case.get("poll") else case["read_timeout"])
         if not b:
             break
         tail += b
     rec["tail"] = bytes(tail)
+    if case.get("unread_inbound"):
+        peer.event("inbound").set()
+        time.sleep(0.05)
     sent = tr.bulk_write(b"client-hello", case["read_timeout"])
     rec["write_ret"] = sent
     if case.get("big_write"):
@@ -324,10 +343,29 @@ def _drive_sync(case, port, peer, rec):
                 break
             view = view[n:]
         rec["big_write_calls"] = calls
+    if case.get("unread_inbound"):
+        # closing a TCP socket that still holds unread inbound data makes the kernel send RST and discard what is in flight: that is TCP, not the
+        # transport; so the bytes are consumed before close() -- they only had to be pending *while* the client was writing
+        pending = bytearray()
+        while len(pending) < len(b"unread-by-client"):
+            if time.time() > t_end:
+                raise Inconclusive("watchdog while draining")
+            b = tr.bulk_read(len(b"unread-by-client") - len(pending), case["read_timeout"])
+            if not b:
+                break
+            pending += b
+        rec["inbound"] = bytes(pending)
+    if case.get("peer_reset"):
+        peer.event("reset").set()
+        time.sleep(0.1)
+        try:
+            rec["after_reset"] = ("data", len(tr.bulk_read(10, 0.2)))
+        except Exception as e:  # noqa  (any error or EOF is acceptable here; what matters is that close() and connect() still work)
+            rec["after_reset"] = ("exc", type(e).__name__)
     tr.close()
     tr.close()
     rec["closed_twice"] = True
-    if case["reconnect"]:
+    if case["reconnect"] or case.get("peer_reset"):
         tr.connect(case["connect_timeout"])
         b = tr.bulk_read(5, case["read_timeout"])
         rec["reconnect"] = bytes(b)
@@ -364,14 +402,19 @@ async def _drive_async(case, port, peer, rec):
         rec["idle"] = ("other:" + type(e).__name__, 0, time.time() - t0)
     peer.event("tail").set()
     tail = bytearray()
+    if case.get("poll"):
+        await asyncio.sleep(0.15)
     while len(tail) < len(case["tail"]):
         if time.time() > t_end:
             raise Inconclusive("watchdog while reading the tail")
-        b = await tr.bulk_read(len(case["tail"]) - len(tail), case["read_timeout"])
+        b = await tr.bulk_read(len(case["tail"]) - len(tail), 0 if case.get("poll") else case["read_timeout"])
         if not b:
             break
         tail += b
     rec["tail"] = bytes(tail)
+    if case.get("unread_inbound"):
+        peer.event("inbound").set()
+        await asyncio.sleep(0.05)
     rec["write_ret"] = await tr.bulk_write(b"client-hello", case["read_timeout"])
     if case.get("big_write"):
         data = big_payload(case["big_write"])
@@ -387,10 +430,27 @@ async def _drive_async(case, port, peer, rec):
                 break
             view = view[n:]
         rec["big_write_calls"] = calls
+    if case.get("unread_inbound"):
+        pending = bytearray()
+        while len(pending) < len(b"unread-by-client"):
+            if time.time() > t_end:
+                raise Inconclusive("watchdog while draining")
+            b = await tr.bulk_read(len(b"unread-by-client") - len(pending), case["read_timeout"])
+            if not b:
+                break
+            pending += b
+        rec["inbound"] = bytes(pending)
+    if case.get("peer_reset"):
+        peer.event("reset").set()
+        await asyncio.sleep(0.1)
+        try:
+            rec["after_reset"] = ("data", len(await tr.bulk_read(10, 0.2)))
+        except Exception as e:  # noqa
+            rec["after_reset"] = ("exc", type(e).__name__)
     await tr.close()
     await tr.close()
     rec["closed_twice"] = True
-    if case["reconnect"]:
+    if case["reconnect"] or case.get("peer_reset"):
         await tr.connect(case["connect_timeout"])
         b = await tr.bulk_read(5, case["read_timeout"])
         rec["reconnect"] = bytes(b)
@@ -403,9 +463,15 @@ def big_payload(n):
 
 def run_transport(case, api):
     script = [("send", f, p) for f, p in case["frags"]] + [("wait", "tail"), ("send", case["tail"], 0), ("recv", len(b"client-hello"))]
+    if case.get("unread_inbound"):
+        script.insert(len(script) - 1, ("wait", "inbound"))
+        script.insert(len(script) - 1, ("send", b"unread-by-client", 0))
     if case.get("big_write"):
         script.append(("recv_slow", case["big_write"], 4096, 0.004))
-    scripts = [script] + ([[("send", b"again", 0)]] if case["reconnect"] else [])
+    if case.get("peer_reset"):
+        script.append(("wait", "reset"))
+        script.append(("reset",))
+    scripts = [script] + ([[("send", b"again", 0)]] if (case["reconnect"] or case.get("peer_reset")) else [])
     peer = ScriptedPeer(scripts, rcvbuf=case.get("peer_rcvbuf"))
     peer.start()
     rec = {"reads": [], "api": api}
@@ -453,6 +519,8 @@ def judge_transport(case, rec):
         return Violation("data-lost-after-timeout", "peer sent %r.. after the timeout, transport delivered %r.." % (case["tail"][:20], rec["tail"][:20]))
     if not rec["peer_received"].startswith(b"client-hello"):
         return Violation("write-not-delivered", "peer received %r" % rec["peer_received"][:40])
+    if case.get("unread_inbound") and rec.get("inbound") != b"unread-by-client":
+        return Violation("inbound-bytes-lost-during-write", "the peer sent 16 bytes while the client was writing; the client later read %r" % (rec.get("inbound"),))
     if case.get("big_write"):
         if rec.get("bad_write_count"):
             return Violation("write-count-out-of-range", "bulk_write returned %r for %d offered bytes" % rec["bad_write_count"])
@@ -460,7 +528,7 @@ def judge_transport(case, rec):
         if rec["peer_received"] != want_w:
             return Violation("written-bytes-not-delivered", "every bulk_write call returned normally (counts summing to %d bytes) and close() returned, but the peer received %d bytes; first difference at %s"
                              % (len(want_w), len(rec["peer_received"]), _first_diff(want_w, rec["peer_received"])))
-    if case["reconnect"] and rec.get("reconnect") != b"again":
+    if (case["reconnect"] or case.get("peer_reset")) and rec.get("reconnect") != b"again":
         return Violation("reconnect-failed", "after close()+connect() read %r" % rec.get("reconnect"))
     return None
 
@@ -532,7 +600,10 @@ def run_session(scn, api, server_kw=None, sndbuf=None, transport_timeout=None):
                     results.append({"ok": runner.run_op_sync(dev, op, i, out)})
                 except Exception as e:  # noqa
                     results.append(runner.exc_result(e))
-            dev.close()
+            try:
+                dev.close()
+            except Exception as e:  # noqa
+                out.extra["final_close_exc"] = e
         else:
             async def main():
                 tr = SmallBufTcpAsync("127.0.0.1", srv.port)
@@ -547,7 +618,10 @@ def run_session(scn, api, server_kw=None, sndbuf=None, transport_timeout=None):
                         results.append({"exc": "Inconclusive", "msg": "wall-clock watchdog"})
                     except Exception as e:  # noqa
                         results.append(runner.exc_result(e))
-                await dev.close()
+                try:
+                    await dev.close()
+                except Exception as e:  # noqa
+                    out.extra["final_close_exc"] = e
             asyncio.run(main())
     finally:
         srv.stop()
@@ -648,3 +722,42 @@ def _first_diff(a, b):
 
 def push_part(check_id, tier, seed):
     return harness.hypothesis_part("socket", push_cases(), check_push_case, 32 if tier == "quick" else 480, seed)
+
+
+# -- C12 over real TCP: the peer aborts the connection (RST) in the middle of a session; close(), connect() and a replay must work
+@st.composite
+def reset_cases(draw):
+    case = draw(sc.session(max_ops=3, big=False))
+    case["device"]["lag"] = []
+    case["reset_after"] = draw(st.integers(1, 12))
+    case["transport_timeout"] = draw(st.sampled_from([1.0, 3.0]))
+    for o in case["ops"]:
+        o["read_timeout_s"] = 1.0
+    return case
+
+
+def check_reset_case(case):
+    use_real_clock()
+    ops = [dict(o) for o in case["ops"]]
+    recovery = [{"op": "close"}, {"op": "connect", "read_timeout_s": 2.0}] + [dict(o) for o in ops]
+    scn = dict(case, connect={"read_timeout_s": 2.0}, ops=ops + recovery)
+    out = run_session(scn, case["api"], server_kw={"reset_after": case["reset_after"]}, transport_timeout=case["transport_timeout"])
+    info = {"classes": [case["api"], "tcp-reset"], "nontrivial": True,
+            "sample": {"ops": [o["op"] for o in ops], "reset_after_host_packets": case["reset_after"], "api": case["api"], "results": [r.get("exc", "ok") for r in out.results]}}
+    if out.server_error is not None:
+        raise env.HarnessError("socket server failed: %r" % (out.server_error,))
+    if any(r.get("exc") == "Inconclusive" for r in out.results):
+        info["inconclusive"] = True
+        return None, info
+    n1 = 1 + len(ops)
+    for op, res in zip(out.ops[:n1], out.results[:n1]):
+        if "exc" in res:
+            continue
+        v = expect.compare(scn, op, res, case["device"])
+        if v is not None:
+            return Violation("wrong-result-under-connection-reset", v.detail), info
+    for op, res in zip(out.ops[n1:], out.results[n1:]):
+        v = expect.compare(scn, op, res, case["device"])
+        if v is not None:
+            return Violation("recovery-failed-after-connection-reset", "after the peer reset the connection (at host packet %d), recovery op %r misbehaved: %s" % (case["reset_after"], op["op"], v.detail)), info
+    return None, info
